@@ -250,110 +250,245 @@ func c13(c *Ctx) {
 			}
 			// set keys: every MapUpdate of the same map stores strings.ToLower(range element)
 			setOK, updates := true, 0
-			for _, b := range f.Blocks {
-				for _, in := range b.Instrs {
-					if mu, ok := in.(*ssa.MapUpdate); ok && mu.Map == look.X {
-						updates++
-						call, ok := mu.Key.(*ssa.Call)
-						if !ok || call.Call.StaticCallee() == nil || call.Call.StaticCallee().String() != "strings.ToLower" {
-							setOK = false
+			// the set may be built here or by a helper of the package that returns it
+			type setSrc struct {
+				fn *ssa.Function
+				m  ssa.Value
+			}
+			srcs := []setSrc{{f, look.X}}
+			if call, ok := look.X.(*ssa.Call); ok {
+				if g := call.Call.StaticCallee(); g != nil && len(g.Blocks) > 0 && engine.RelPkg(P.OwnPkgPath(g)) == "rfc822" {
+					srcs = nil
+					for _, ret := range engine.Returns(g) {
+						if len(ret.Results) == 1 {
+							srcs = append(srcs, setSrc{g, ret.Results[0]})
 						}
 					}
 				}
 			}
-			// polarity: the `ok` extract feeds exactly one If; appends of getAll on found / not found edge
-			var iff *ssa.If
-			foundEdge := 0 // successor taken when the key is in the set
+			for _, src := range srcs {
+				if _, isMake := src.m.(*ssa.MakeMap); !isMake {
+					setOK = false // a set of unknown making
+				}
+				for _, b := range src.fn.Blocks {
+					for _, in := range b.Instrs {
+						if mu, ok := in.(*ssa.MapUpdate); ok && mu.Map == src.m {
+							updates++
+							call, ok := mu.Key.(*ssa.Call)
+							if !ok || call.Call.StaticCallee() == nil || call.Call.StaticCallee().String() != "strings.ToLower" {
+								setOK = false
+							}
+						}
+					}
+				}
+			}
+			// polarity, decided per path through one iteration of the entry loop: the conditions on a path are
+			// read as atoms (listed = the lookup's ok, keyed = entry.hasKey(), anything else is free); on every
+			// path that tests `listed` for an entry not known to be key-less, the entry's bytes are appended
+			// exactly when listed has the wanted value; a path that appends without testing `listed` must not
+			// be one on which the entry is known to have a key.
+			var okEx ssa.Value
 			for _, r := range *look.Referrers() {
 				if ex, ok := r.(*ssa.Extract); ok && ex.Index == 1 {
-					for _, rr := range *ex.Referrers() {
-						if i, ok := rr.(*ssa.If); ok {
-							iff, foundEdge = i, 0
+					okEx = ex
+				}
+			}
+			var header *ssa.BasicBlock
+			var body map[*ssa.BasicBlock]bool
+			for _, h := range f.Blocks {
+				if lb := engine.LoopBody(h); lb != nil && lb[look.Block()] && (body == nil || len(lb) < len(body)) {
+					header, body = h, lb
+				}
+			}
+			isAppendAll := func(in ssa.Instruction) bool {
+				call, ok := in.(*ssa.Call)
+				if !ok {
+					return false
+				}
+				if bi, ok := call.Call.Value.(*ssa.Builtin); !ok || bi.Name() != "append" {
+					return false
+				}
+				src, ok := call.Call.Args[1].(*ssa.Call)
+				return ok && src.Call.StaticCallee() != nil && engine.ShortName(src.Call.StaticCallee()) == "getAll"
+			}
+			polOK, polWhy := false, "the lookup result does not decide a branch inside the loop over the entries"
+			if okEx != nil && header != nil {
+				type tv int // 0 unknown, 1 true, 2 false
+				neg := func(t tv) tv {
+					switch t {
+					case 1:
+						return 2
+					case 2:
+						return 1
+					}
+					return 0
+				}
+				// eval: the condition as (atom, polarity) or a constant; atom "" = free
+				var eval func(v ssa.Value, from map[*ssa.BasicBlock]*ssa.BasicBlock, at *ssa.BasicBlock, d int) (atom string, pos bool, konst tv)
+				eval = func(v ssa.Value, from map[*ssa.BasicBlock]*ssa.BasicBlock, at *ssa.BasicBlock, d int) (string, bool, tv) {
+					if d > 6 {
+						return "", true, 0
+					}
+					switch t := v.(type) {
+					case *ssa.Const:
+						if bv, ok := engine.ConstBool(t); ok {
+							if bv {
+								return "", true, 1
+							}
+							return "", true, 2
 						}
-						// ok == P / ok != P with P a parameter whose value this caller fixes
-						if bo, ok := rr.(*ssa.BinOp); ok && (bo.Op == token.EQL || bo.Op == token.NEQ) {
-							other := bo.Y
-							if other == ssa.Value(ex) {
-								other = bo.X
+					case *ssa.Parameter:
+						if pv, known := constParam[t]; known {
+							if pv {
+								return "", true, 1
 							}
-							par, isPar := other.(*ssa.Parameter)
-							pv, known := constParam[par]
-							if !isPar || !known {
-								continue
+							return "", true, 2
+						}
+					case *ssa.Extract:
+						if ssa.Value(t) == okEx {
+							return "listed", true, 0
+						}
+					case *ssa.Call:
+						if sc := t.Call.StaticCallee(); sc != nil && engine.ShortName(sc) == "hasKey" {
+							return "keyed", true, 0
+						}
+					case *ssa.UnOp:
+						if t.Op == token.NOT {
+							a, p, k := eval(t.X, from, at, d+1)
+							return a, !p, neg(k)
+						}
+					case *ssa.BinOp:
+						if t.Op == token.EQL || t.Op == token.NEQ {
+							a1, p1, k1 := eval(t.X, from, at, d+1)
+							a2, p2, k2 := eval(t.Y, from, at, d+1)
+							if a1 != "" && k2 != 0 {
+								a1, p1, k1, a2, p2, k2 = a2, p2, k2, a1, p1, k1
 							}
-							for _, r3 := range *bo.Referrers() {
-								if i, ok := r3.(*ssa.If); ok {
-									iff = i
-									// cond value when found(ok=true): EQL -> pv, NEQ -> !pv
-									condWhenFound := pv
-									if bo.Op == token.NEQ {
-										condWhenFound = !pv
-									}
-									if condWhenFound {
-										foundEdge = 0
-									} else {
-										foundEdge = 1
-									}
+							if a2 != "" && k1 != 0 {
+								same := k1 == 1
+								if t.Op == token.NEQ {
+									same = !same
+								}
+								if same {
+									return a2, p2, 0
+								}
+								return a2, !p2, 0
+							}
+							_, _ = p1, a1
+						}
+					case *ssa.Phi:
+						if pred, ok := from[t.Block()]; ok {
+							for i, pb := range t.Block().Preds {
+								if pb == pred {
+									return eval(t.Edges[i], from, pred, d+1)
 								}
 							}
 						}
 					}
+					return "", true, 0
 				}
-			}
-			polOK, polWhy := false, "the lookup result does not directly decide a branch"
-			if iff != nil {
-				isAppendAll := func(in ssa.Instruction) bool {
-					call, ok := in.(*ssa.Call)
-					if !ok {
-						return false
-					}
-					if bi, ok := call.Call.Value.(*ssa.Builtin); !ok || bi.Name() != "append" {
-						return false
-					}
-					src, ok := call.Call.Args[1].(*ssa.Call)
-					return ok && src.Call.StaticCallee() != nil && engine.ShortName(src.Call.StaticCallee()) == "getAll"
-				}
-				appendsFrom := func(start *ssa.BasicBlock) (must bool, may bool) {
-					// walk until the loop header (block of the lookup's loop) is re-entered
-					seen := map[*ssa.BasicBlock]bool{}
-					var walk func(b *ssa.BasicBlock) (bool, bool)
-					walk = func(b *ssa.BasicBlock) (bool, bool) {
-						if seen[b] {
-							return true, false
+				type verdict struct{ listed, keyed tv }
+				bad := ""
+				tested := 0
+				var walk func(b *ssa.BasicBlock, from map[*ssa.BasicBlock]*ssa.BasicBlock, asg map[string]tv, appended bool, depth int)
+				finish := func(asg map[string]tv, appended bool, where *ssa.BasicBlock) {
+					l, k := asg["listed"], asg["keyed"]
+					if l != 0 {
+						tested++
+						if k == 2 {
+							return
 						}
-						seen[b] = true
-						for _, in := range b.Instrs {
-							if isAppendAll(in) {
-								return true, true
+						want := (l == 1) == spec.onFound
+						if appended != want && bad == "" {
+							if spec.onFound {
+								bad = "Fields must append the entry exactly when its key is found in the requested set"
+							} else {
+								bad = "FieldsNot must append the entry exactly when its key is not found in the requested set"
 							}
 						}
-						if b.Dominates(look.Block()) && b != look.Block() {
-							return false, false // back at (or before) the loop header without append
-						}
-						must, may := true, false
-						if len(b.Succs) == 0 {
-							return false, false
-						}
-						for _, s := range b.Succs {
-							mu, ma := walk(s)
-							must = must && mu
-							may = may || ma
-						}
-						return must, may
+						return
 					}
-					return walk(start)
+					if appended && k == 1 && bad == "" {
+						bad = "an entry known to have a key is appended on a path that never consults the requested set"
+					}
 				}
-				tMust, tMay := appendsFrom(iff.Block().Succs[foundEdge])
-				fMust, fMay := appendsFrom(iff.Block().Succs[1-foundEdge])
-				if spec.onFound {
-					polOK = tMust && !fMay
-					polWhy = "Fields must append the entry on the found edge of the lookup and never on the not-found edge"
-				} else {
-					polOK = fMust && !tMay
-					polWhy = "FieldsNot must append the entry on the not-found edge of the lookup and never on the found edge"
+				walk = func(b *ssa.BasicBlock, from map[*ssa.BasicBlock]*ssa.BasicBlock, asg map[string]tv, appended bool, depth int) {
+					if depth > 64 || bad != "" {
+						return
+					}
+					for _, in := range b.Instrs {
+						if isAppendAll(in) {
+							appended = true
+						}
+					}
+					next := func(s *ssa.BasicBlock, asg2 map[string]tv) {
+						if s == header || !body[s] {
+							finish(asg2, appended, b)
+							return
+						}
+						if _, seen := from[s]; seen {
+							return // an inner cycle: not unrolled
+						}
+						f2 := map[*ssa.BasicBlock]*ssa.BasicBlock{}
+						for k, v := range from {
+							f2[k] = v
+						}
+						f2[s] = b
+						walk(s, f2, asg2, appended, depth+1)
+					}
+					iff := engine.IfOf(b)
+					if iff == nil {
+						for _, s := range b.Succs {
+							next(s, asg)
+						}
+						return
+					}
+					atom, pos, k := eval(iff.Cond, from, b, 0)
+					for ix, s := range b.Succs {
+						val := tv(1)
+						if ix == 1 {
+							val = 2
+						}
+						if k != 0 {
+							if k != val {
+								continue
+							}
+							next(s, asg)
+							continue
+						}
+						if atom == "" {
+							next(s, asg)
+							continue
+						}
+						av := val
+						if !pos {
+							av = neg(val)
+						}
+						if cur := asg[atom]; cur != 0 && cur != av {
+							continue // contradicts an earlier test on this path
+						}
+						a2 := map[string]tv{}
+						for k2, v2 := range asg {
+							a2[k2] = v2
+						}
+						a2[atom] = av
+						next(s, a2)
+					}
 				}
-				_ = tMay
-				_ = fMust
+				for _, s := range header.Succs {
+					if body[s] {
+						walk(s, map[*ssa.BasicBlock]*ssa.BasicBlock{s: header}, map[string]tv{}, false, 0)
+					}
+				}
+				_ = verdict{}
+				switch {
+				case bad != "":
+					polWhy = bad
+				case tested == 0:
+					polWhy = "no path through the entry loop tests the lookup result"
+				default:
+					polOK = true
+				}
 			}
 			why := ""
 			switch {
